@@ -394,7 +394,12 @@ func main() {
 	r := rec.NewRand(o.Seed)
 	for i := 0; i < o.N; i++ {
 		rr := r.Fork()
-		s := scen.Generate(rr, scen.DefaultOpts())
+		var s *scen.Scenario
+		if rr.Chance(1, 2) {
+			s = luScenario(rr)
+		} else {
+			s = scen.Generate(rr, scen.DefaultOpts())
+		}
 		runScenario(ctx, w, rr, s, nil, maxReq)
 	}
 }
